@@ -6,7 +6,7 @@
     byte strings of any length and all trees of any depth and width. *)
 From Coq Require Import List NArith Bool.
 From TwLib Require Import PyStr.
-From C28 Require Import Gen Model Proofs.
+From C28 Require Import Gen Model Proofs Html5.
 Import ListNotations.
 Local Open Scope N_scope.
 
@@ -75,13 +75,19 @@ Theorem html5_comment_refuted : exists s rest : list N,
 Proof. exact html5_comment_early_close. Qed.
 Print Assumptions html5_comment_refuted.
 
-(** ... but not for texts without '-', '<', NUL that do not start with '>'.
-    FULL STATEMENT (not proved; the exact guard): for every s that does not start with ">" or
-    "->" and does not contain "--!>",
-      snd (html_comment CStart [] (escapedComment s ++ b_comment_close ++ rest)) = rest. *)
+(** ... and this is exact.  [html5_guard s] = the text does not start with ">" or "->" and does not
+    contain "--!>".  For every text inside the guard and every continuation, the WHATWG comment
+    states end the comment exactly at the flattener's own "-->" ... *)
 Theorem html5_comment_partial : forall s rest : list N,
-  forallb (fun c => negb (c =? 45) && negb (c =? 60) && negb (c =? 0)) s = true ->
-  starts_with [62] s = false ->
-  html_comment CStart [] (escapedComment s ++ b_comment_close ++ rest) = (s, rest).
-Proof. exact html5_comment_plain_ok. Qed.
+  negb (starts_with [62] s) && negb (starts_with [45; 62] s) && negb (contains [45; 45; 33; 62] s) = true ->
+  snd (html_comment CStart [] (escapedComment s ++ b_comment_close ++ rest)) = rest.
+Proof. exact html5_guard_ok. Qed.
 Print Assumptions html5_comment_partial.
+
+(** ... and for EVERY text outside the guard and every continuation the comment ends early
+    (what follows the comment token is not what follows the flattener's "-->"). *)
+Theorem html5_comment_outside_guard_refuted : forall s rest : list N,
+  negb (starts_with [62] s) && negb (starts_with [45; 62] s) && negb (contains [45; 45; 33; 62] s) = false ->
+  snd (html_comment CStart [] (escapedComment s ++ b_comment_close ++ rest)) <> rest.
+Proof. exact html5_guard_exact. Qed.
+Print Assumptions html5_comment_outside_guard_refuted.
